@@ -80,6 +80,9 @@ def _run_lines(argv, lines, cwd=None, env=None, timeout=600):
             rc = 'timeout'
             got = (ex.stdout or b'').decode('utf-8', 'replace').split('\n')
         if got and got[-1] == '': got.pop()
+        if any(g.startswith('\x01') for g in got) or (got and argv[0] == HARNESS_BIN):
+            # the harness marks protocol lines with 0x01; everything else is library chatter
+            got = [g[1:] for g in got if g.startswith('\x01')]
         if len(got) >= len(pending):
             out.extend(got[:len(pending)])
             break
